@@ -6,6 +6,7 @@ From Coq Require Import List String NArith Bool Permutation.
 Import ListNotations.
 Require Import Verif.Front.Indent Verif.Gen.LexerTables Verif.Gen.ConcShape.
 Require Import Verif.Conc.Keyed Verif.Conc.KeyedProps Verif.Conc.Post Verif.Conc.PostProps Verif.Conc.Current Verif.Conc.Run.
+Require Import Verif.Conc.Infer Verif.Conc.InferProps Verif.Conc.Claim Verif.Conc.ClaimProps Verif.Conc.CurrentFlags.
 Local Open Scope N_scope.
 
 (* every interleaving of k compilations whose lexers have pairwise distinct keys - for ANY per-key state machine, with or
@@ -90,3 +91,109 @@ Proof.
         (conj (proj1 state_map_is) (conj (f_equal (map (fun g => snd g)) globals_are) translator_classified_everything))))))).
 Qed.
 Print Assumptions C07_source_shape.
+
+(* ================= round 3: determinism of the whole application loop, parser values, import identities ================= *)
+
+(* the application loop of postProcess with mixins of types and views, inferTypes (anonymous types of untyped nested
+   transforms, their counter, the shared view objects, the parser's let keys) at the CURRENT source: the same module, the same
+   typing of the transforms and the same parser state under every iteration order of mod.Apps and of every application's Views *)
+Theorem C07_application_loop_order_independent : forall m ordA1 ordA2 ordV1 ordV2 lets0,
+  map_order ordA1 -> map_order ordA2 -> vmap_order ordV1 -> vmap_order ordV2 ->
+  pp current_flags ordA1 ordV1 lets0 m = pp current_flags ordA2 ordV2 lets0 m.
+Proof. exact current_pp_order_independent. Qed.
+Print Assumptions C07_application_loop_order_independent.
+
+(* the reason, for ANY loop body and state (also the parts of the body that are not modelled: fixTypeRefScope's look-ups in
+   other applications, collector calls): a loop over collected-and-sorted keys does not see the map's order *)
+Theorem C07_sorted_loop_order_independent : forall (S:Type) (body:S -> N -> S) (s:S) (keys:list N) ord1 ord2,
+  map_order ord1 -> map_order ord2 -> fold_left body (isort (ord1 keys)) s = fold_left body (isort (ord2 keys)) s.
+Proof. exact @sorted_loop_order_independent. Qed.
+Print Assumptions C07_sorted_loop_order_independent.
+
+(* ... exactly because both loops sort their keys first (for either scope of the counter) *)
+Theorem C07_application_loop_independent_iff_sorted : forall fl,
+  (forall m ordA1 ordA2 ordV1 ordV2 lets0, map_order ordA1 -> map_order ordA2 -> vmap_order ordV1 -> vmap_order ordV2 ->
+     pp fl ordA1 ordV1 lets0 m = pp fl ordA2 ordV2 lets0 m)
+  <-> f_sorted_apps fl = true /\ f_sorted_views fl = true.
+Proof. exact pp_order_independent_iff. Qed.
+Print Assumptions C07_application_loop_independent_iff_sorted.
+
+(* inferTypes ranging over the Views map (the source before fixes/C07-4): two views of one application, one untyped nested
+   transform each - which of them AnonType_0__ describes depends on the iteration order *)
+Theorem C07_unsorted_views_refuted : forall sa pa, exists m ordA ordV1 ordV2, map_order ordA /\ vmap_order ordV1 /\ vmap_order ordV2 /\
+  p_mod (pp {| f_sorted_apps := sa; f_sorted_views := false; f_per_app := pa |} ordA ordV1 [] m) <>
+  p_mod (pp {| f_sorted_apps := sa; f_sorted_views := false; f_per_app := pa |} ordA ordV2 [] m).
+Proof. exact pp_unsorted_views_refuted. Qed.
+Print Assumptions C07_unsorted_views_refuted.
+
+(* what survives without the sort: modules whose views have nothing to infer *)
+Theorem C07_unsorted_views_partial : forall fl ordA ordV1 ordV2 lets0 m, quiet m ->
+  pp fl ordA ordV1 lets0 m = pp fl ordA ordV2 lets0 m.
+Proof. exact pp_unsorted_views_partial. Qed.
+Print Assumptions C07_unsorted_views_partial.
+
+(* nothing of the mixin model is lost: on modules without views the loop IS Conc/Post.post_process *)
+Theorem C07_application_loop_extends_mixin_model : forall fl ordA ordV lets0 m,
+  project (p_mod (pp fl ordA ordV lets0 (embed m))) = post_process (f_sorted_apps fl) ordA m.
+Proof. exact embed_post_project. Qed.
+Print Assumptions C07_application_loop_extends_mixin_model.
+
+(* one parse.Parser value used for a second compilation of the same source: another module (the let keys of the first
+   compilation are still in p.LetTypes, so the transforms under a `let` are not inferred again) - for every setting of the flags *)
+Theorem C07_parser_reuse_refuted : forall fl, exists m ordA ordV, map_order ordA /\ vmap_order ordV /\
+  p_mod (compile_again fl ordA ordV m) <> p_mod (compile_fresh fl ordA ordV m).
+Proof. exact parser_reuse_refuted. Qed.
+Print Assumptions C07_parser_reuse_refuted.
+
+(* ... and the strongest true statement: whatever let keys the parser holds, module and typing are the same provided no
+   `let` of a view has an untyped nested transform under it *)
+Theorem C07_parser_reuse_partial : forall fl ordA ordV lets1 lets2 m, plain m ->
+  p_mod (pp fl ordA ordV lets1 m) = p_mod (pp fl ordA ordV lets2 m) /\
+  p_typed (pp fl ordA ordV lets1 m) = p_typed (pp fl ordA ordV lets2 m).
+Proof. exact parser_reuse_partial. Qed.
+Print Assumptions C07_parser_reuse_partial.
+
+(* the retrieved-file table of one compilation: when the index tells apart every two spellings that are claimed, every order
+   of the claims (= every completion order of the reads) gives the same table, and every spelling is read *)
+Theorem C07_import_claims_order_independent : forall idx l l', told_apart idx l -> Permutation l l' ->
+  forall k, tget (collect idx l) k = tget (collect idx l') k.
+Proof. exact claim_order_independent. Qed.
+Print Assumptions C07_import_claims_order_independent.
+
+Theorem C07_every_spelling_is_read : forall idx l f, told_apart idx l -> In f l -> tget (collect idx l) (idx f) = Some f.
+Proof. exact every_spelling_is_read. Qed.
+Print Assumptions C07_every_spelling_is_read.
+
+(* an index that identifies two files (folding letter case): which of billing/Types.sysl and billing/types.sysl is compiled
+   depends on the order; for two spellings the condition is exact *)
+Theorem C07_import_casefold_refuted : exists l l' k, Permutation l l' /\ tget (collect casefold l) k <> tget (collect casefold l') k.
+Proof. exact claim_casefold_refuted. Qed.
+Print Assumptions C07_import_casefold_refuted.
+
+Theorem C07_import_identity_iff : forall idx a b,
+  (forall k, tget (collect idx [a; b]) k = tget (collect idx [b; a]) k) <-> (idx a <> idx b \/ a = b).
+Proof. exact claim_injective_iff. Qed.
+Print Assumptions C07_import_identity_iff.
+
+(* obligations against the source, round 3: inferTypes sorts the view names and numbers anonymous types per application; the
+   only fields of parse.Parser written after construction are two setters' and the three accumulators of view inference; no
+   Parser / listener value under pkg/ and cmd/ leaves the function that makes it; the retrieved-file table is a local of Parse
+   and its map is touched between Lock and Unlock only, before the blocking read; an import is identified by its resolved
+   spelling (no case folding); the map ranges of pkg/parse are the reviewed ones; no package-level variable of the hand-written
+   packages the compile path calls into is ever written *)
+Theorem C07_source_shape_round3 :
+  (infer_views_order = "sorted" /\ anon_counter_scope = "per-app")%string /\
+  map fst parser_field_writers = ["AssignTypes"; "LetTypes"; "Messages"; "allowAbsoluteImport"; "Settings"]%string /\
+  let_guard = "seen:skip;new:infer+record"%string /\
+  forallb (fun s => match s with (_, _, class) => per_call class end) parser_value_sites = true /\
+  forallb (fun s => match s with (_, _, class) => per_call class end) listener_sites = true /\
+  retrieved_decl = "local of Parse"%string /\
+  List.length file_index_shape = 5%nat /\
+  List.length parse_map_ranges = 22%nat /\
+  forallb (fun g => match g with (_, _, class) => String.eqb class "init-only" end) dep_globals = true.
+Proof.
+  exact (conj infer_shape_is (conj (f_equal (map fst) parser_fields_are) (conj let_guard_is (conj (proj1 parser_values_are_per_call)
+        (conj (proj1 listener_values_are_per_call) (conj (proj1 retrieved_table_is)
+        (conj (f_equal (@List.length _) file_index_is) (conj (f_equal (@List.length _) parse_map_ranges_are) (proj1 dep_globals_are_init_only))))))))).
+Qed.
+Print Assumptions C07_source_shape_round3.
